@@ -186,6 +186,21 @@ def run_shard(spec, rec: Recorder):
                     recs.append((prio, weight, port, target))
                 domain = rng.choice(["corp.example", "a.b.c.d.example", None, "", "sub.corp.example.", "UPPER.Corp.Example", "xn--mller-kva.example", "_under.score.example", "a" * 63 + ".example"])
                 check_case(rec, dns_, recs, domain, loop)
+            # the same host several times (different services / ports / case / trailing dot), and key-collision shapes
+            for i in range(max(30, spec["n"] // 10)):
+                hosts = ["dc1.dup.example.", "DC1.dup.example.", "dc1.dup.example", "dc2.dup.example.", "dc3.dup.example."]
+                recs = []
+                for j in range(rng.randrange(2, 7)):
+                    recs.append((rng.choice([0, 0, 1, 20, 65535]), rng.choice([0, 1, 100, 65535]), rng.choice([389, 3268, 636]), rng.choice(hosts)))
+                check_case(rec, dns_, recs, "dup.example", loop)
+                p0 = rng.choice([0, 1, 9, 100, 65533])
+                shape = [(p0 + 1, 65535, 389, "worse.example."), (p0, 0, 389, "best.example.")]
+                if rng.random() < 0.5:
+                    shape.append((min(65535, p0 + 2), rng.randrange(65536), 389, "filler.example."))
+                if rng.random() < 0.5:
+                    shape.reverse()
+                check_case(rec, dns_, shape, "adj.example", loop)
+                rec.count("duplicate_host_and_adjacent_sets", 2)
             # large answer sets and unusual (but valid) targets
             for i in range(max(20, spec["n"] // 20)):
                 k = rng.choice([6, 9, 30, 200])
